@@ -7,6 +7,7 @@
 #include <iostream>
 #include <sstream>
 #include <execinfo.h>
+#include <sys/wait.h>
 
 #if defined(__has_feature)
 #  if __has_feature(address_sanitizer)
@@ -151,6 +152,16 @@ int worker_main(int argc, char** argv, const Engine& eng) {
             MVal plan = eng.generate(profile, seed, g_idx);
             if (k == 0 && resume_sub) plan.set("resume_sub", MVal::uinteger(resume_sub));
             if (k < 2 && !resume_sub) { std::string s = plan.dump(); if (s.size() < 4000) st.samples.push_back(s); }
+            pid_t child = 0;
+            if (eng.fork_per_run) {
+                emit_stats(st);
+                child = fork();
+                if (child > 0) {
+                    int status = 0; waitpid(child, &status, 0);
+                    if (!(WIFEXITED(status) && WEXITSTATUS(status) == 0)) _exit(WIFEXITED(status) ? WEXITSTATUS(status) : 128 + WTERMSIG(status));
+                    continue;
+                }
+            }
             Result r = eng.execute(plan, st);
             st.inc("runs");
             if (!r.ok) {
@@ -158,6 +169,7 @@ int worker_main(int argc, char** argv, const Engine& eng) {
                 putline("V " + std::to_string(g_idx) + " " + result_json(r, plan).dump() + "\n");
             }
             if (hashes) { char b[64]; snprintf(b, sizeof b, "H %llu %llx\n", (unsigned long long)g_idx, (unsigned long long)r.hash); putline(b); }
+            if (eng.fork_per_run && child == 0) { emit_stats(st); _exit(0); }
             if ((k & 63) == 63) emit_stats(st);
         }
         emit_stats(st);
@@ -180,6 +192,17 @@ int worker_main(int argc, char** argv, const Engine& eng) {
             try { plan = MVal::parse(line); } catch (std::exception& e) { putline("R {\"ok\":true,\"class\":\"invalid-plan\",\"detail\":\"\",\"hash\":0}\n"); continue; }
             g_idx = 0;
             progress(0);
+            if (eng.fork_per_run) {
+                pid_t child = fork();
+                if (child > 0) {
+                    int status = 0; waitpid(child, &status, 0);
+                    if (!(WIFEXITED(status) && WEXITSTATUS(status) == 0)) _exit(WIFEXITED(status) ? WEXITSTATUS(status) : 128 + WTERMSIG(status));
+                    continue;
+                }
+                Result r = eng.execute(plan, st);
+                putline("R " + result_json(r, plan).dump() + "\n");
+                _exit(0);
+            }
             Result r = eng.execute(plan, st);
             st.c.clear(); st.distinct.clear(); st.samples.clear();
             putline("R " + result_json(r, plan).dump() + "\n");
